@@ -2,6 +2,7 @@ package auto
 
 import (
 	"errors"
+	"io"
 
 	"go.pennock.tech/tabular"
 	"go.pennock.tech/tabular/csv"
@@ -18,6 +19,14 @@ type vfFailWriter struct {
 	k, mode, partial int
 	calls            int
 	got              []byte
+	err              error // the error value reported (vfErrWrite unless set)
+}
+
+func (w *vfFailWriter) failure() error {
+	if w.err != nil {
+		return w.err
+	}
+	return vfErrWrite
 }
 
 func (w *vfFailWriter) Write(p []byte) (int, error) {
@@ -48,9 +57,9 @@ func (w *vfFailWriter) Write(p []byte) (int, error) {
 				n = 0
 			}
 			w.got = append(w.got, p[:n]...)
-			return n, vfErrWrite
+			return n, w.failure()
 		}
-		return 0, vfErrWrite
+		return 0, w.failure()
 	}
 	w.got = append(w.got, p...)
 	return len(p), nil
@@ -112,6 +121,12 @@ func VerifC15_writer() {
 	if w.mode == 2 {
 		w.partial = vfChoice("partial", 7)
 	}
+	// the writer's error may be any value, also one that means something else elsewhere (io.EOF is
+	// what a closed network channel reports)
+	if vfChoice("error-value", 2) == 1 {
+		w.err = io.EOF
+		vfTag("writer-reports-io-EOF")
+	}
 	vfAssume(w.k < W)
 	if w.mode == 1 {
 		vfTag("fails-once")
@@ -144,6 +159,12 @@ func VerifC15_recover() {
 	}
 	W := clean.calls
 	rt := vfWrapper(t, f)
+	if vfChoice("rendered-before", 2) == 1 {
+		// the renderer object has already been used successfully once
+		first := &vfFailWriter{k: -1, mode: 1}
+		vfAssert(rt.RenderTo(first) == nil, "fault-free-render-ok")
+		vfTag("wrapper-rendered-before-the-failure")
+	}
 	bad := &vfFailWriter{k: vfInt("k", 0, 40), mode: vfChoice("mode", 3)}
 	if bad.mode == 2 {
 		bad.partial = vfChoice("partial", 7)
@@ -151,6 +172,12 @@ func VerifC15_recover() {
 	vfAssume(bad.k < W)
 	err := rt.RenderTo(bad)
 	vfAssert(err != nil, "failure-surfaces-as-error")
+	vfAssert(len(bad.got) <= len(clean.got), "accepted-bytes-are-a-prefix")
+	if len(bad.got) <= len(clean.got) {
+		for i := range bad.got {
+			vfAssert(bad.got[i] == clean.got[i], "accepted-bytes-are-a-prefix")
+		}
+	}
 	good := &vfFailWriter{k: -1, mode: 1}
 	err2 := rt.RenderTo(good)
 	vfAssert(err2 == nil, "render-after-failure-ok")
